@@ -96,6 +96,50 @@ def unmerged(ftype, tier, st, failures):
     st.bump("unmerged_histories", n)
 
 
+CLI_CAP = {"quick": 120, "thorough": 600}
+
+
+def accepting_cli(ftype, tier, seen, st, failures):
+    """Oracle (3): for accepting state representatives the command prints `<name>: OK!` and exits 0."""
+    b = progrun.BOUNDS[tier]
+    reps = []
+    for k, h in seen.items():
+        rp = norm.replay(ftype, h[2], b, "test" + ftype)
+        if norm.accepting(rp.st):
+            reps.append((h, norm.render(rp.lines + norm.completion(rp.st))))
+    step = max(1, len(reps) // CLI_CAP[tier])
+    chosen = reps[::step]
+    res = explore.pmap(progrun.cli_text, [("test" + ftype, text, ["--no-colors"]) for _, text in chosen], chunksize=4)
+    st.runs += len(chosen)
+    st.bump(f"accepting_states{ftype}", len(reps))
+    st.bump(f"accepting_cli_runs{ftype}", len(chosen))
+    for (h, text), o in zip(chosen, res):
+        ok = o["code"] == 0 and o["stdout"].startswith(f"test{ftype}: OK!") and o["exc"] is None
+        if not ok:
+            failures.append(Failure("C01", f"cli:exit={o['code']}:exc={o['exc'][0] if o['exc'] else None}",
+                                    f"main() on a conforming file: exit {o['code']}, stdout {o['stdout'][:80]!r}",
+                                    {"ftype": ftype, "ids": list(h[2]), "tier": tier, "kind": "cli"}))
+    # real subprocess for a fixed handful (harness conformance of the in-process driver)
+    import os
+    import tempfile
+    import shutil
+    from .. import impl
+    for (h, text) in chosen[:3]:
+        d = tempfile.mkdtemp(prefix="mcverif_")
+        try:
+            path = os.path.join(d, "test" + ftype)
+            open(path, "w").write(text)
+            o = impl.run_cli_subprocess(["--no-colors", path])
+            st.runs += 1
+            if o["code"] != 0 or not o["stdout"].startswith(f"test{ftype}: OK!"):
+                failures.append(Failure("C01", f"cli-subprocess:exit={o['code']}",
+                                        f"python -m norminette on a conforming file: exit {o['code']}, "
+                                        f"stdout {o['stdout'][:80]!r} stderr {o['stderr'][-120:]!r}",
+                                        {"ftype": ftype, "ids": list(h[2]), "tier": tier, "kind": "cli"}))
+        finally:
+            shutil.rmtree(d, ignore_errors=True)
+
+
 def run(tier, seed):
     st = explore.Stats()
     failures = []
@@ -109,6 +153,7 @@ def run(tier, seed):
             st.sample({"ftype": ftype, "blocks": list(h[2]),
                        "text_tail": norm.render(rp.lines + norm.completion(rp.st)).split("\n")[12:]})
         unmerged(ftype, tier, st, failures)
+        accepting_cli(ftype, tier, seen, st, failures)
     st.states = total_states
     if total_states < 50:
         raise HarnessError(f"only {total_states} product states: exploration is vacuous")
@@ -137,6 +182,13 @@ def replay(payload):
         from . import c01_expr
         return c01_expr.replay(payload)
     h = (payload["ftype"], payload["tier"], tuple(payload["ids"]))
+    if payload.get("kind") == "cli":
+        ftype = payload["ftype"]
+        rp = norm.replay(ftype, h[2], progrun.BOUNDS[payload["tier"]], "test" + ftype)
+        o = progrun.cli_text(("test" + ftype, norm.render(rp.lines + norm.completion(rp.st)), ["--no-colors"]))
+        if not (o["code"] == 0 and o["stdout"].startswith(f"test{ftype}: OK!") and o["exc"] is None):
+            return [Failure("C01", f"cli:exit={o['code']}:exc={o['exc'][0] if o['exc'] else None}", str(o)[:200], payload)]
+        return []
     o = progrun.eval_hist(_task(h))
     judge(h, o, fails, st)
     return fails
